@@ -49,10 +49,15 @@ reg('C10', 'propchecks.c10', 'proof', T1[:1], [ASCII, CORR])
 
 T7 = [('Bashlex.History.results_eq_solo', QC), ('Bashlex.History.result_get', QC), ('Bashlex.Q.run_touched_irrelevant', QC), ('Bashlex.Q.run_touched', QC),
       ('Bashlex.Q.run_frame', QC), ('Bashlex.parseFrom_touched_irrelevant', QC), ('Bashlex.runParser_touched_irrelevant', QC)]
-reg('C18', 'propchecks.c18', 'proof', T7, [ASCII, DEPTH, CORR, 'the only module-level state the model has is the set of sh_syntaxtab keys looked up; that the implementation has no other is observed (snapshots, fresh-interpreter comparison) and, statically, by the C20 write-site obligation'])
+reg('C18', 'propchecks.c18', 'proof', T7 + [('Bashlex.Props.C20.no_unlisted_shared_write', 'Bashlex.Props.C20'), ('Bashlex.Props.C20.shared_objects_known', 'Bashlex.Props.C20')], [ASCII, DEPTH, CORR, 'the only module-level state the model has is the set of sh_syntaxtab keys looked up; that the implementation has no other is observed (snapshots, fresh-interpreter comparison) and, statically, by the C20 write-site obligation'])
 
 T7P = [('Bashlex.Pool.exec_value', QC), ('Bashlex.Pool.exec_pure', QC), ('Bashlex.Pool.exec_all', QC), ('Bashlex.Pool.exec_done', QC), ('Bashlex.Pool.exec_store_prefix', QC),
        ('Bashlex.Env.answer_eqModStore', QC), ('Bashlex.Q.run_touched_irrelevant', QC)]
-reg('C19', 'propchecks.c19', 'proof', T7P, [ASCII, CORR, 'the theorem is about the abstract interleaving model (atomic queries on one shared store); it cannot exhibit CPython preemption points, the atomicity of defaultdict.__missing__ under the GIL, or free-threaded builds: those are observed under the deterministic scheduler and stress runs'])
+reg('C19', 'propchecks.c19', 'proof', T7P + [('Bashlex.Props.C20.no_unlisted_shared_write', 'Bashlex.Props.C20')], [ASCII, CORR, 'the theorem is about the abstract interleaving model (atomic queries on one shared store); it cannot exhibit CPython preemption points, the atomicity of defaultdict.__missing__ under the GIL, or free-threaded builds: those are observed under the deterministic scheduler and stress runs'])
 
 reg('C02', 'propchecks.c02', 'translation_validation', T1[:1], [ASCII, CORR, 'the expected tree is a Lean definition evaluated per generated case (translation-validation strength), not a theorem over all trees'])
+
+C20M = 'Bashlex.Props.C20'
+reg('C20', 'propchecks.c20', 'proof', [('Bashlex.Props.C20.' + t, C20M) for t in ['C20_static', 'no_effect_reachable', 'no_effect_reachable_guarded', 'no_unlisted_shared_write', 'reach_complete', 'closure_sound', 'engine_call_ok', 'yacc_args_ok', 'imports_ok', 'import_effects_listed', 'unresolved_listed', 'shared_objects_known']],
+    ['the call graph is name-based and over-approximate (tools/extract.py, ast module); callables stored at import and invoked while parsing are covered by two stored-callable rules with the unresolved-calls obligation as a backstop',
+     'effects inside the interpreter or C extensions that raise no audit event cannot be observed', CORR])
